@@ -107,7 +107,12 @@ pub fn fnv(data: &[u8]) -> u64 {
         h = h.wrapping_mul(0x100000001b3);
         h ^= h >> 29;
     }
-    h ^ (data.len() as u64).wrapping_mul(0x9E3779B97F4A7C15)
+    h ^= (data.len() as u64).wrapping_mul(0x9E3779B97F4A7C15);
+    // final avalanche
+    h ^= h >> 32;
+    h = h.wrapping_mul(0xD6E8FEB86659FD93);
+    h ^= h >> 32;
+    h
 }
 
 pub fn file_names(name: &str) -> [String; 3] {
@@ -187,16 +192,19 @@ impl<'a> Exec<'a> {
         e.dbs.push(db);
         for ms in &h.maps {
             let keys: Vec<Vec<u8>> = ms.keys.iter().map(|k| k.bytes()).collect();
-            let hnd = match open_map(&e.dbs[0], &ms.name, ms.kt, &ms.params) {
-                Ok(m) => m,
-                Err(err) => fail!("error", None, "open map {}: {err}", ms.name),
-            };
+            let mut handles: Vec<Box<dyn MapH>> = Vec::new();
+            if !ms.late {
+                match open_map(&e.dbs[0], &ms.name, ms.kt, &ms.params) {
+                    Ok(m) => handles.push(m),
+                    Err(err) => fail!("error", None, "open map {}: {err}", ms.name),
+                }
+            }
             e.maps.push(MapSt {
                 name: ms.name.clone(),
                 kt: ms.kt,
                 keys,
                 params: ms.params,
-                handles: vec![hnd],
+                handles,
                 cur: 0,
                 model: BTreeMap::new(),
                 prev: None,
@@ -224,6 +232,26 @@ impl<'a> Exec<'a> {
         ms.keys[k as usize % ms.keys.len()].clone()
     }
 
+    /// open a late map on first use, through the most recently cloned database handle
+    fn ensure_open(&mut self, mi: usize, o: Option<usize>) -> Result<(), Failure> {
+        if !self.maps[mi].handles.is_empty() {
+            return Ok(());
+        }
+        let db = self.dbs[self.dbs.len() - 1].clone();
+        let (name, kt, params) = (self.maps[mi].name.clone(), self.maps[mi].kt, self.maps[mi].params);
+        match open_map(&db, &name, kt, &params) {
+            Ok(m) => {
+                self.maps[mi].handles.push(m);
+                self.maps[mi].cur = 0;
+                if self.dbs.len() > 1 {
+                    self.rep.bump("late_map_opened_through_db_clone");
+                }
+                Ok(())
+            }
+            Err(err) => fail!("error", o, "opening map {name}: {err}"),
+        }
+    }
+
     fn hnd(&mut self) -> &mut Box<dyn MapH> {
         let ms = &mut self.maps[self.curm];
         let c = ms.cur % ms.handles.len();
@@ -243,6 +271,9 @@ impl<'a> Exec<'a> {
     fn step(&mut self, i: usize, op: &Op) -> Result<(), Failure> {
         let o = Some(i);
         let obs = self.h.obs.clone();
+        if !matches!(op, Op::Use { .. } | Op::Reopen { .. }) {
+            self.ensure_open(self.curm, o)?;
+        }
         if obs.isolation && op.is_update() {
             self.isolation_before()?;
         }
@@ -556,6 +587,7 @@ impl<'a> Exec<'a> {
             }
             Op::Use { m } => {
                 self.curm = *m as usize % self.maps.len();
+                self.ensure_open(self.curm, o)?;
                 let ms = &mut self.maps[self.curm];
                 ms.cur = (ms.cur + 1) % ms.handles.len();
                 if ms.handles.len() > 1 {
@@ -627,6 +659,7 @@ impl<'a> Exec<'a> {
 
     pub fn full_compare(&mut self, o: Option<usize>) -> Result<(), Failure> {
         for mi in 0..self.maps.len() {
+            self.ensure_open(mi, o)?;
             let keys = self.maps[mi].keys.clone();
             let ms = &mut self.maps[mi];
             let c = ms.cur % ms.handles.len();
@@ -963,6 +996,9 @@ impl<'a> Exec<'a> {
         when: &str,
         _was_update: bool,
     ) -> Result<(), Failure> {
+        if decoder::mode() == decoder::Mode::Off {
+            return Ok(());
+        }
         let name = self.maps[mi].name.clone();
         self.rep.bump("decoded_states");
         if let Some(c) = d.header.first() {
@@ -1200,8 +1236,11 @@ impl<'a> Exec<'a> {
     fn isolation_before(&mut self) -> Result<(), Failure> {
         // flush every other map so that their files are stable, remember signatures
         let cm = self.curm;
+        for ms in self.maps.iter_mut() {
+            ms.file_sig = None;
+        }
         for mi in 0..self.maps.len() {
-            if mi == cm {
+            if mi == cm || self.maps[mi].handles.is_empty() {
                 continue;
             }
             let dir = self.ctx.dir.clone();
@@ -1223,7 +1262,7 @@ impl<'a> Exec<'a> {
             let _ = ms.handles[c].flush();
         }
         for mi in 0..self.maps.len() {
-            if mi == cm {
+            if mi == cm || self.maps[mi].handles.is_empty() || self.maps[mi].file_sig.is_none() {
                 continue;
             }
             let dir = self.ctx.dir.clone();
